@@ -504,6 +504,37 @@ def run_check():
         ck.extra["random_cases"] = "skipped: the native routine hangs/crashes; not calling it in-process"
         return ck.finish()
     pre_int, pre_flt = pre[:len(cases)], pre[len(cases):]
+    # ---- the Python layer in front of the C routine (np_ptm3): the basins it returns for a spectrum stored Fortran-ordered,
+    # as a transposed float32 view or as a strided view are the label regions of the logical array
+    from wavespectra.partition.partition import np_ptm3
+
+    nlay = 0
+    for (z, ih, kind) in cases:
+        nk, nth = z.shape
+        if nk < 2 or nth < 2 or nlay >= (60 if not thorough else 600):
+            continue
+        zp = np.asarray(z, dtype=float) + 1.0
+        if float(zp.max()) == float(zp.min()) or float(zp.max()) >= 2 ** 24:
+            continue
+        nlay += 1
+        ref = part(zp, ih)
+        want = {frozenset(map(tuple, np.argwhere(ref == k))) for k in range(1, int(ref.max()) + 1)}
+        want.discard(frozenset())
+        fq, dr = np.linspace(0.05, 0.4, nk), np.linspace(0.0, 360.0, nth, endpoint=False)
+        for tag, v in (("fortran_f64", np.asfortranarray(zp)), ("transposed_view_f32", np.ascontiguousarray(zp.T, dtype=np.float32).T),
+                       ("strided_f32", np.repeat(zp.astype(np.float32), 2, axis=1)[:, ::2])):
+            ck.evaluations += 1
+            ck.count("python_layer:" + tag)
+            try:
+                got = {frozenset(map(tuple, np.argwhere(np.asarray(q) > 0))) for q in np_ptm3(v, v, fq, dr, parts=None, ihmax=ih)}
+            except Exception as e:
+                ck.fail("np_ptm3", f"raised {type(e).__name__}: {e} for a {tag} input", dict(nk=nk, nth=nth, ihmax=ih, grid=zp.tolist(), layout=tag), "crash")
+                continue
+            got.discard(frozenset())
+            if got != want:
+                ck.fail("np_ptm3", f"basins returned for a {tag} input are not the label regions of the same logical array "
+                                   f"({len(got)} partitions vs {len(want)} basins)", dict(nk=nk, nth=nth, ihmax=ih, grid=zp.tolist(), layout=tag),
+                        "python_layer_layout")
     reqs, ctx = [], []
     n_traces = tot["checked"]
     shift_diff_cases = 0
